@@ -76,6 +76,24 @@ def param_kinds(F):
             if _is_u32_map(p.get("ty")) and p["pat"].get("k") == "Binding":
                 kinds[(f["path"], i)] = set()
                 phid[(f["path"], p["pat"]["hid"])] = i
+    # pairing evidence: a tuple `(index_place, map, ..)` that carries a map parameter next to an index whose origin names a
+    # space (e.g. `InitInstr::Global(id) => (id, <map>, ..)`) uses that map for that space when the tuple is consumed
+    for f in fns:
+        origins = _binding_origins(f)
+        for t in walk(f["body"]):
+            if t.get("k") != "Tup":
+                continue
+            maps_in = []
+            ks = set()
+            for el in t.get("elems", []):
+                pv = peel(el)
+                if pv.get("k") == "Path" and pv.get("res", {}).get("r") == "local" and (f["path"], pv["res"]["hid"]) in phid:
+                    maps_in.append(phid[(f["path"], pv["res"]["hid"])])
+                else:
+                    ks |= _leaf_kind_of_key(el, origins)
+            if maps_in and len(ks) == 1:
+                for i in maps_in:
+                    kinds[(f["path"], i)] |= ks
     changed = True
     rounds = 0
     while changed and rounds < 10:
